@@ -69,7 +69,7 @@ Verdict ==
   /\ Clause("intron_start_tolerance", (C.kind = "ciRNA" /\ StartOutOfRange) => C.outcome = "absent")
   /\ Clause("intron_tolerance", (C.enough /\ C.kind = "ciRNA") => ((C.outcome = "record") = SomeIntronAccepts))
   /\ Clause("circ_variant_refs", C.cvran => CircRefsOk)
-  /\ Clause("circ_peptides_sound", C.cvran => \A k \in 1..Len(C.cpeps) : C.cpeps[k] \in CircPeps(FALSE))
+  /\ Clause("circ_peptides_sound", (C.cvran /\ Len(C.cpeps) > 0) => LET CP == CircPeps(FALSE) IN \A k \in 1..Len(C.cpeps) : C.cpeps[k] \in CP)
   /\ Clause("circ_peptides_complete", (C.cvran /\ C.outcome = "record") => CircRequired \subseteq CircObs)
   /\ PrintT(<<"V", i, "done">>)
 =============================================================================
